@@ -403,7 +403,13 @@ func (e *Eng) actIntrospectEndpoint() {
 	}
 	hint := pick(t, []string{"", "access_token", "refresh_token", "garbage"}, "hint")
 	var req []string
-	switch rapid.IntRange(0, 4).Draw(t, "requireScope") {
+	switch rapid.IntRange(0, 5).Draw(t, "requireScope") {
+	case 5:
+		// a scope that was requested at authorization time but declined by the user
+		if d := c.G.Extra["declined"]; d != "" {
+			req = []string{d}
+			e.label("introspect-requires-declined-scope")
+		}
 	case 0:
 		if len(c.G.Scopes) > 0 {
 			req = []string{pick(t, c.G.Scopes, "covered")}
